@@ -91,7 +91,7 @@ func c05r1(c *core.Ctx) {
 			}
 			key := fmt.Sprintf("write:secureSession.%s@%s", fld, fname(f))
 			want := map[string]string{"decryptCount": "Decrypt", "encryptCount": "Encrypt"}[fld]
-			if core.TypeIs(recvType(f), tSecure) && f.Name() == want {
+			if core.TypeIs(recvType(f), tSecure) && cn(f) == want {
 				c.OK(key, st.Pos(), "counter advanced by its own direction's method")
 			} else if n, isK := core.ConstInt(st.Val); isK && n == 0 && f.Signature.Recv() == nil {
 				c.OK(key, st.Pos(), "constructor initialises the counter to 0")
